@@ -118,11 +118,13 @@ def uninstall():
 
 
 class Scheduler:
-    def __init__(self, codes, strategy, max_steps=20000, candidate_files=None):
+    def __init__(self, codes, strategy, max_steps=20000, candidate_files=None, active_files=None):
         self.codes = codes
         self.strategy = strategy
         self.max_steps = max_steps
         self.candidate_files = candidate_files
+        self.active_files = active_files      # None = every instrumented file yields
+        self._active_cache = {}
         self.step = 0
         self.cur = None
         self.sems = {}
@@ -203,6 +205,12 @@ class Scheduler:
             raise SchedAbort(self.aborted)
         if self.cur != tid:
             return None
+        if self.active_files is not None:
+            a = self._active_cache.get(code)
+            if a is None:
+                a = self._active_cache[code] = code.co_filename.endswith(self.active_files)
+            if not a:
+                return None
         self.yield_point(tid, code, line, self._is_candidate(code))
         return None
 
@@ -290,7 +298,7 @@ class Scheduler:
                 self._abort('wall clock watchdog')
                 self.errors.append((-1, 'watchdog', 'run did not finish'))
             for t in threads:
-                t.join(timeout=5.0)
+                t.join(timeout=5.0 if ok else 0.2)
         finally:
             CURRENT = None
         return self
